@@ -23,7 +23,8 @@ def ohx(b):
 # --------------------------------------------------------------------------
 # G1: grammar-directed components
 
-SCHEMES = ["s", "http", "a+b-c.d", "A1", "z9"]
+SCHEMES = ["s", "http", "a+b-c.d", "A1", "z9", "https", "http+unix", "httpx", "https.", "HTTP", "file", "files", "data",
+           "dat", "urn", "mailto", "ftp", "ws", "wss", "h", "ht"]
 USERINFOS = [None, None, "", "u", "u:p", ":", "u%41", "a:b:c", "%C3%A9", "!$&'()*+,;="]
 # literal non-ASCII text whose UTF-8 octets alias the ASCII delimiters under `& 0x7f`
 # (AF `/`, BF `?`, A3 `#`, BA `:`, A5 `%`, AE `.`, DB `[`, DD `]`, 80 NUL): a scanner that masks,
@@ -34,10 +35,10 @@ HOSTS = ["", "h", "example.org", "1.2.3.4", "255.255.255.255", "256.1.1.1", "[::
          "[1:2:3:4:5:6:7:8]", "[1::8]", "[::1.2.3.4]", "[v1.a:b]", "[vF.x]", "h%41", "a.b-c_d~",
          "%C3%A9", "127.0.0.1", "[1:2:3:4:5:6:1.2.3.4]", "[1:2::7:8]"]
 HOSTS_I = HOSTS + ["é.org", "日本"] + ["h" + a for a in ALIAS[:6]]
-PORTS = [None, None, "", "8", "80", "8080", "0", "65536"]
+PORTS = [None, None, "", "8", "80", "8080", "0", "65536", "000080", "123456", "0" * 20 + "1", "99999", "65535"]
 SEGS = ["a", "b", "c", "", ".", "..", "a:b", ":", "@", "a@b", "%2E", "%2e%2E", "a%2Fb", "x.y",
         "...", ";p", "a=1", "~", "-", "%41", "1:a", "@:b", "aaa", "d;p"]
-SEGS_I = SEGS + ["é", "日本", "a:é"] + ALIAS + ["na\u00efve", "\u00bfq", "1\u00a3"]
+SEGS_I = SEGS + ["é", "日本", "a:é", "é:b", "a中:b", "日:本", "\U0001F600:x"] + ALIAS + ["na\u00efve", "\u00bfq", "1\u00a3"]
 QUERIES = [None, None, "", "q", "a=b&c=d", "/?", "?", "q%41", "a/b?c", ":@", "%FF", "@", "u@h:8", "t=1:2",
            "//x@y/z"]
 QUERIES_I = QUERIES + ["é", "\ue000", "\U000f0000"] + ALIAS[:5]
@@ -452,6 +453,30 @@ def stream_setters(rng, tier):
                     yield "hist %s ref %s %s:%s" % (fam, hx(b), op, ohx(v))
                 if ":" in b and not (op == "ss" and v is None):
                     yield "hist u full %s %s:%s" % (hx(b), op, ohx(v))
+    # the *old* component holds escapes and multi-byte characters (byte length differs from the
+    # decoded length and from the character count): every setter, all four buffer types
+    esc_bases = ["//h/p?q#%41b", "s:a#x%2Fy", "s://h/p?%41%42=%43#f", "s://u%40x@h%2E:1/%2e/p?q#%C3%A9%C3%A9",
+                 "s:%61%62/c?d#e", "//h#%23%23%23", "s://h/a?%3F%3F#%25", "s://%5B/p#%5D"]
+    for b in esc_bases:
+        for op, vals in SETTER_VALUES.items():
+            for v in vals:
+                for fam in "ui":
+                    yield "hist %s ref %s %s:%s" % (fam, hx(b), op, ohx(v))
+                    if b.startswith("s:") and not (op == "ss" and v is None):
+                        yield "hist %s full %s %s:%s" % (fam, hx(b), op, ohx(v))
+    for b, tail in [("s://h/p", "é"), ("//h/p?q", "日本"), ("s:a", "\U0001F600x")]:
+        for op, vals in SETTER_VALUES.items():
+            for v in vals:
+                yield "hist i ref %s %s:%s" % (hx(b + "#" + tail), op, ohx(v))
+                yield "hist i ref %s %s:%s" % (hx(b.split("?")[0] + "?" + tail + "#f"), op, ohx(v))
+                if b.startswith("s:") and not (op == "ss" and v is None):
+                    yield "hist i full %s %s:%s" % (hx(b + "#" + tail), op, ohx(v))
+    # the colon shield when the text before the `:` is not ASCII (IRI family): a first segment
+    # such as `é:b` needs `./` exactly like `a:b`
+    for b, op, v in [("s:é:b", "ss", None), ("s:a中:b/c", "ss", None), ("s://h/é:b", "sa", None), ("//h/é:b?q", "sa", None),
+                     ("x", "sp", "é:b"), ("", "sp", "a中:b"), ("?q", "sp", "é:b/c"), ("s:x", "sp", "é:b"), ("s://h", "sp", "/é:b"),
+                     ("s:./é:b", "ss", None), ("s:é:b", "ss", "t"), ("./é:b", "ss", "s")]:
+        yield "hist i ref %s %s:%s" % (hx(b), op, ohx(v))
     # a new value that equals the old one after percent-decoding but is spelled differently must
     # still be written (setters are about text): every component, both directions, hex case too
     respell = [("s://ex%61mple.org/p?q#f", "sa", "example.org"), ("s://example.org/p", "sa", "ex%61mple.org"),
@@ -579,6 +604,13 @@ def stream_pathmut(rng, tier):
                     yield "hist i ref %s pm[%s;%s;push:%s]" % (hx("//h:" + p + "#f"), o1, o2, hx("z"))
                 else:
                     yield "hist u ref %s pm[%s;%s]" % (hx(p + "?query#frag"), o1, o2)
+    # the colon shield behind non-ASCII text, and behind text that is no scheme (`1:b`, `%61:b`, `a_b:c`, `:b`)
+    for seg in ["é:b", "a中:b", "日:本", "1:b", "%61:b", "a_b:c", ":b", "a@b:c", "-:x", "~:x"]:
+        f = "u" if seg.isascii() else "i"
+        for p in ["", ".", "x", "x/..", "./" + seg, "x/../" + seg, "./x/../" + seg, seg + "/../" + seg]:
+            for op in ["push:" + hx(seg), "spush:" + hx(seg), "sapp:" + hx(seg), "sapp:" + hx("../" + seg), "norm", "pop;push:" + hx(seg)]:
+                yield "hist %s path %s pm[%s]" % (f, hx(p), op)
+                yield "hist %s ref %s pm[%s]" % (f, hx(p + "?q"), op)
     for p in long_paths():
         for op in ["norm", "pop", "push:" + hx("z"), "sapp:" + hx("../y"), "norm;pop;norm"]:
             yield "hist u path %s pm[%s]" % (hx(p), op)
@@ -634,6 +666,11 @@ def stream_authmut(rng, tier):
                     if tier != "thorough" and t in hostile and rng.random() < 0.5:
                         continue
                     yield "hist u ref %s am[%s]" % (hx(b), o1)
+                    if tier == "thorough" or rng.random() < 0.3:
+                        yield "hist i ref %s am[%s]" % (hx(b), o1)
+                        if pre:
+                            yield "hist u full %s am[%s]" % (hx(b), o1)
+                            yield "hist i full %s am[%s]" % (hx(b), o1)
                     if tier == "thorough" or rng.random() < 0.15:
                         for o2 in single:
                             yield "hist u ref %s am[%s;%s]" % (hx(b), o1, o2)
@@ -807,6 +844,19 @@ def stream_paths(rng, tier):
             for t in "clz":
                 yield "segs u %s %s" % (hx(p), "".join(sched) + t)
                 yield "segs i %s %s" % (hx(p), "".join(sched) + t)
+    # escaped dots are ordinary segments, also right next to literal dot segments
+    dotty = ["a", "%2E%2E", "%2e", "..", ".", ""]
+    for n in (1, 2, 3, 4):
+        for combo in itertools.product(dotty, repeat=n):
+            if not any("%" in c for c in combo):
+                continue
+            for lead in ("", "/"):
+                p = lead + "/".join(combo)
+                if p.startswith("//"):
+                    continue
+                yield "pathq u %s" % hx(p)
+                if tier == "thorough" or n < 4:
+                    yield "pathq i %s" % hx(p)
     # paths beyond the inline buffers (16 segments, 512 bytes), with at most one dot segment and
     # that one at either end
     for p in long_paths():
@@ -898,6 +948,16 @@ def stream_suffix(rng, tier):
             if a.startswith(("s:", "t:")) and b.startswith(("s:", "t:")):
                 yield "suffix u full %s %s" % (hx(a), hx(b))
                 yield "suffix i full %s %s" % (hx(a), hx(b))
+    # a value against itself, and against itself without its query / fragment
+    for a in refs + ["http://example.org/dir/file?q#f", "s://h/a/?q", "s:/a#f", "//h/a/b?q#f", "a/b?q", "?q#f", "#f"]:
+        for t in ["", "?q", "#f", "?q#f"] if "?" not in a and "#" not in a else [""]:
+            v = a + t
+            for f in "ui":
+                yield "suffix %s ref %s %s" % (f, hx(v), hx(v))
+                yield "suffix %s ref %s %s" % (f, hx(v), hx(v.split("#")[0].split("?")[0]))
+                if v.startswith(("s:", "t:", "http:")):
+                    yield "suffix %s full %s %s" % (f, hx(v), hx(v))
+                    yield "suffix %s full %s %s" % (f, hx(v), hx(v.split("#")[0].split("?")[0]))
     # the same path pairs inside whole references, through each of the four entry points: a prefix
     # spelt with dot segments is textually longer than the value it is a prefix of
     aps = [p for p in exhaustive("a/.", 4)]
@@ -929,6 +989,9 @@ def stream_suffix(rng, tier):
         # a prefix of the same value: its base, or the value with its last segments dropped
         fb = fa.split("?")[0].split("#")[0].rsplit("/", rng.choice([1, 1, 2]))[0] if rng.random() < 0.6 else rand_ref(rng, f, True)
         yield "suffix %s full %s %s" % (f, hx(fa), hx(fb))
+        if rng.random() < 0.2:
+            yield "suffix %s full %s %s" % (f, hx(fa), hx(fa))
+            yield "suffix %s ref %s %s" % (f, hx(a), hx(a))
         yield "base %s full %s" % (f, hx(fa))
         yield "psuffix %s %s %s" % (f, hx(rand_path(rng, f, "any")), hx(rand_path(rng, f, "any", 2)))
 
@@ -1038,6 +1101,9 @@ def stream_routes(rng, tier):
 
 DATA_MT = ["", "text/plain", "a", "image/png", "a#b", "a/b+c", "text/plain;charset=utf-8", "a;x=1", "é", "a b", "A.-_^!$&",
            "a;base64;x=1", "base64", "a;x=base64"]
+# media types at and beyond the boundaries of 8- and 16-bit offsets
+DATA_MT_LONG = ["t/" + "x" * 253, "t/" + "x" * 254, "t/" + "x" * 255, "a/b;p=" + "v" * 300, "m" * 65535, "m" * 65536,
+                "m/" + "x" * 66000]
 DATA_BODY = ["", "A", "SGVsbG8=", "SGVsbG8", "QQ==", "QQ=", "Q", "QR==", "A%20B", "a,b", "a;b", "#f", "a#f", "?q",
              "////", "+/+/", "AAAA", "AAA=", "AAB=", "=", "====", "QUJD", "QUJDRA==", "é",
              # the data part may itself contain the markers the accessors look for
@@ -1052,6 +1118,11 @@ def stream_dataurl(rng, tier):
                 for pre in ["data:", "dat:", "DATA:", "data"]:
                     yield "dataurl %s" % hx(pre + mt + b64 + "," + body)
                 yield "dataurl %s" % hx("data:" + mt + b64 + body)
+    for mt in DATA_MT_LONG:
+        for b64 in ["", ";base64"]:
+            for body in ["", "QQ==", "a,b#f"]:
+                yield "dataurl %s" % hx("data:" + mt + b64 + "," + body)
+        yield "dataurl %s" % hx("data:" + mt)
     for s in exhaustive("da:,;b", 5 if tier == "quick" else 6):
         yield "dataurl %s" % hx(s)
         yield "dataurl %s" % hx("data:" + s)
@@ -1145,6 +1216,16 @@ def stream_ptr(rng, tier):
         f = rng.choice("ui")
         full = rng.random() < 0.4
         yield "ptr %s %s %s" % (f, "full" if full else "ref", hx(rand_ref(rng, f, full)))
+    # the borrowed data-URL type: constructor and re-scanning accessors (not `decoded_data`, which
+    # is not a borrowed view)
+    for mt in DATA_MT[:9] + DATA_MT_LONG[:4]:
+        for b64 in ["", ";base64", ";base64x"]:
+            for body in DATA_BODY[:14] + ["QUJDRA==" * 40, "x" * 3000]:
+                yield "ptrdata %s" % hx("data:" + mt + b64 + "," + body)
+    b64c = "ABCDabcd0189+/="
+    for _ in range(600 if tier == "quick" else 20000):
+        body = "".join(rng.choice(b64c) for _ in range(rng.randrange(0, 40)))
+        yield "ptrdata %s" % hx("data:" + rng.choice(DATA_MT) + rng.choice(["", ";base64"]) + "," + body)
     # inputs far larger than any inline buffer
     for k in ([2000, 70000] if tier == "quick" else [2000, 70000, 1200000]):
         big = "s://u@h:1" + "/seg" * k + "/../x?" + "q" * 1000 + "#" + "f" * 1000
